@@ -124,6 +124,19 @@ theorem C11_host_ambiguous (hs : List Header) (uh : Bytes) (up : Int) (pn : Int)
     · exact hasFlag_or_right _ _ (by decide)
     · exact hasFlag_or_right _ _ (by decide)
 
+/-- **C11 (port ambiguity)**: when the target and the Host field both carry a port and the two differ, HOST_AMBIGUOUS is set
+    (whatever the host names are). -/
+theorem C11_host_port_ambiguous (hs : List Header) (uh : Bytes) (up : Int) (pn : Int) (f : Nat) (h : Header) (hn : Bytes)
+    (hh : getHeaderC hs (b!"host") = some h) (hhn : (Uri.parseHostport h.value).hostname = some hn)
+    (h1 : up ≠ -1) (h2 : (Uri.parseHostport h.value).portNumber ≠ -1) (h3 : up ≠ (Uri.parseHostport h.value).portNumber) :
+    hasFlag (requestHost hs (some uh) up pn f).2.2 HOST_AMBIGUOUS = true := by
+  unfold requestHost
+  simp only [hh, hhn]
+  have hd : (up != -1 && (Uri.parseHostport h.value).portNumber != -1 && up != (Uri.parseHostport h.value).portNumber) = true := by
+    simp [h1, h2, h3]
+  simp only [hd, if_true]
+  exact hasFlag_or_right _ _ (by decide)
+
 /-- **C11 (invalid Host syntax)**: a Host field that the authority parser rejects, or whose host part fails hostname validation,
     sets HOSTH_INVALID. -/
 theorem C11_host_invalid (hs : List Header) (uh : Option Bytes) (up : Int) (pn : Int) (f : Nat) (h : Header)
